@@ -57,8 +57,8 @@ PROP_GROUPS = {
 }
 
 PROP_SYNC = {
-    "C01": ["gen/GenConsts.v", "gen/SyncEnc.v", "gen/SyncDec.v", "gen/SyncMisc.v"],
-    "C02": ["gen/GenConsts.v", "gen/SyncEnc.v", "gen/SyncMisc.v"],
+    "C01": ["gen/GenConsts.v", "gen/SyncEnc.v", "gen/SyncDec.v", "gen/SyncMisc.v", "gen/SyncApi.v"],
+    "C02": ["gen/GenConsts.v", "gen/SyncEnc.v", "gen/SyncMisc.v", "gen/SyncApi.v"],
     "C03": ["gen/GenConsts.v", "gen/SyncDec.v", "gen/SyncMisc.v"],
     "C04": ["gen/SyncDec.v", "gen/SyncMisc.v"],
     "C05": ["gen/SyncDec.v", "gen/SyncMisc.v"],
@@ -67,8 +67,8 @@ PROP_SYNC = {
     "C08": ["gen/SyncDec.v", "gen/SyncMisc.v"],
     "C09": ["gen/GenConsts.v", "gen/SyncDec.v", "gen/SyncMisc.v"],
     "C10": ["gen/SyncEnc.v", "gen/SyncMisc.v"],
-    "C11": ["gen/SyncEnc.v", "gen/SyncMisc.v"],
-    "C12": ["gen/GenConsts.v", "gen/SyncEnc.v"],
+    "C11": ["gen/SyncEnc.v", "gen/SyncMisc.v", "gen/SyncApi.v"],
+    "C12": ["gen/GenConsts.v", "gen/SyncEnc.v", "gen/SyncApi.v"],
     "C13": ["gen/SyncEnc.v", "gen/SyncDec.v", "gen/SyncMisc.v"],
     "C14": ["gen/SyncDec.v", "gen/SyncMisc.v"],
     "C15": [],
